@@ -37,6 +37,20 @@ import c12  # noqa: E402
 # ---------------------------------------------------------------------------------------------------------------
 
 
+class ArgumentChanged(Exception):
+    """A model handed to an analysis as a second argument (gapfill's universal model) was modified."""
+
+
+def argument_state(u):
+    """Everything a caller can see of a model given as an argument: content and solver problem (`observe`), that its reactions still
+    belong to it and are built from its own metabolite objects, and the attribute names of its reactions."""
+    o = observe(u)
+    o["membership"] = {r.id: [r._model is u, all(x is u.metabolites.get_by_id(x.id) if x.id in u.metabolites else False for x in r._metabolites),
+                              sorted(k for k in vars(r) if not k.startswith("__"))] for r in u.reactions}
+    o["met_membership"] = {x.id: [x._model is u, sorted(rr.id for rr in x._reaction)] for x in u.metabolites}
+    return o
+
+
 def observe(m):
     o = c12.observe(m, exact=True)
     o["genes_functional"] = {g.id: bool(g.functional) for g in m.genes}
@@ -353,8 +367,26 @@ def run_analysis(name, m, a, rng_seed):
         r = Reaction("GF_1")
         r.add_metabolites({Metabolite(m.metabolites[0].id): -1, Metabolite(m.metabolites[-1].id): 1})
         r.bounds = (-1000, 1000)
-        uni.add_reactions([r])
-        res = gapfill(m, uni, demand_reactions=a.get("demand", True), exchange_reactions=a.get("exchange", False), lower_bound=a.get("lower", 0.05))
+        extra = [r]
+        if a.get("rich", True):
+            # a universal model with content of its own (a metabolite the model lacks, a bypass through it, an objective)
+            x = Metabolite("gf_x_c")
+            r2 = Reaction("GF_2")
+            r2.add_metabolites({Metabolite(m.metabolites[0].id): -1, x: 1})
+            r2.bounds = (0, 1000)
+            r3 = Reaction("GF_3")
+            r3.add_metabolites({x: -1, Metabolite(m.metabolites[-1].id): 1})
+            r3.bounds = (0, 1000)
+            extra += [r2, r3]
+        uni.add_reactions(extra)
+        uni.objective = uni.reactions[0]
+        before_u = argument_state(uni)
+        try:
+            res = gapfill(m, uni, demand_reactions=a.get("demand", True), exchange_reactions=a.get("exchange", False), lower_bound=a.get("lower", 0.05))
+        finally:
+            after_u = argument_state(uni)
+            if after_u != before_u:
+                raise ArgumentChanged(f"the universal model given to gapfill came back changed: {c12.first_diff(before_u, after_u)}")
         return sorted(len(x) for x in res)
     if name == "fastcc":
         cm = fastcc(m)
@@ -458,6 +490,9 @@ def check_case(case):
                 with warnings.catch_warnings(record=True) as caught:
                     warnings.simplefilter("always")
                     res = run_analysis(name, m, args, case["seed"])
+            except ArgumentChanged as e:
+                fails.append(f"{name}({args}): {e}")
+                res, err = None, "ArgumentChanged"
             except Exception as e:      # infeasible / unbounded / unsupported arguments: the analysis may fail, the model must not change
                 res, err = None, type(e).__name__
             finally:
